@@ -67,9 +67,14 @@ def scenario(rng):
     hosts = [{"one": "h0", "each": f"h{r}", "pairs": f"h{r // 2}"}[hostsets] for r in range(W)]
     per_host = {h: rng.choice(pool) for h in hosts}
     mem = [per_host[hosts[r]] if rng.random() < 0.8 else rng.choice(pool) for r in range(W)]
-    return {"W": W, "style": style, "keys": keysets, "rng_ranks": rng_ranks, "override": rng.random() < 0.35, "mem": mem, "hosts": hosts,
+    # value kinds that differ between ranks for ONE path under a replication glob (the property: "independent of ... value
+    # kinds ... it registers locally"): a Python primitive (inlined in the manifest, no write request) on some ranks, a tensor
+    # on the others.  Only with the glob "**" and a key every rank has.
+    skew = rng.choice([None, None, None, "prim-on-0", "tensor-on-0"])
+    return {"W": W, "style": style, "keys": keysets, "rng_ranks": rng_ranks, "override": rng.random() < 0.35, "mem": mem, "hosts": hosts, "skew": skew,
             "kinds": {k: rng.choice(["tensor", "object", "prim", "mixed"]) for k in allkeys},
-            "restore_shift": rng.choice([0, 0, 1]), "replicated": rng.choice([None, None, ["**"], ["a/**"], ["b/t", "zz_rng/**"]])}
+            "restore_shift": rng.choice([0, 0, 1]),
+            "replicated": (["**"] if skew else rng.choice([None, None, ["**"], ["a/**"], ["b/t", "zz_rng/**"]]))}
 
 
 def make_state(sc, r, fill, shift=0):
@@ -86,6 +91,10 @@ def make_state(sc, r, fill, shift=0):
         d = {}
         if kind in ("tensor", "mixed"):
             d["t"] = torch.full((3,), float(10 * rr + ord(k))) if fill else torch.zeros(3)
+        common = [x for x in sc["keys"][0] if all(x in ks for ks in sc["keys"])]
+        if sc.get("skew") and common and k == common[0]:
+            prim_here = (r == 0) == (sc["skew"] == "prim-on-0")
+            d["s"] = 7 if prim_here else (torch.full((2,), 7.0) if fill else torch.zeros(2))
         if kind in ("object", "mixed"):
             d["o"] = (rr, k) if fill else None
         if kind in ("prim", "mixed"):
@@ -115,6 +124,8 @@ def run_api(sc, api, path):
                     continue
                 a, b = st[k].state_dict(), exp[k].state_dict()
                 for kk in b:
+                    if kk == "s":
+                        continue          # the value-kind-skewed path: which rank's value a restore delivers is not specified
                     import torch
                     if isinstance(b[kk], torch.Tensor):
                         ok = ok and torch.equal(a[kk], b[kk])
@@ -193,6 +204,13 @@ def correspond(ctx: Ctx) -> Result:
             errs = [e for e in world.errors if e is not None]
             mism = [e for e in errs if isinstance(e, CollectiveMismatch)]
             dead = [e for e in errs if isinstance(e, Deadlock)]
+            res.count("value_kind_skew", str(sc.get("skew")))
+            if (sc.get("skew") == "tensor-on-0" and isinstance(world.errors[0], KeyError)
+                    and all(isinstance(e, Deadlock) for e in world.errors[1:])):
+                res.failures.append(Failure("C12:replicated-path-kinds-differ:rank0-KeyError-peers-blocked",
+                                            f"{api}: a path under the replication glob holds a tensor on rank 0 and a Python primitive on another rank: rank 0 raised KeyError "
+                                            f"in the partitioner, the other ranks are blocked in {world.deadlock} keys={sc['keys']}", replay))
+                break
             if mism:
                 res.failures.append(Failure(f"C12:{api}:collective-mismatch", f"{api}: {mism[0]} keys={sc['keys']} rng={sc['rng_ranks']} override={sc['override']}", replay))
             elif dead:
